@@ -50,17 +50,31 @@ def plan(tier, master_seed):
     return tasks
 
 
+def timesim_cases(task):
+    rng = random.Random(task["rng_seed"])
+    cases = [timesim.generate(random.Random(rng.getrandbits(48)), rng.randint(20, 200))
+             for _ in range(task["histories"])]
+    return cases[:task["stop_at"] + 1] if "stop_at" in task else cases
+
+
+def execute_timesim_isolated(task):
+    """A batch of histories runs in a process forked for it alone (Time objects may be shared module-level state of
+    the system: what one batch did to them must not decide another batch)."""
+    import concurrent.futures
+    import multiprocessing
+    with concurrent.futures.ProcessPoolExecutor(max_workers=1, mp_context=multiprocessing.get_context("fork")) as pool:
+        return pool.submit(execute_timesim, task).result()
+
+
 def execute_timesim(task):
     summary = {"status": "ok", "violations": [], "probes": {}, "faults": {}, "distinct": [], "events": 0}
     stats = {}
     if "history" in task:
         cases = [(task["history"]["pool"], task["history"]["ops"])]
     else:
-        rng = random.Random(task["rng_seed"])
-        cases = [timesim.generate(random.Random(rng.getrandbits(48)), rng.randint(20, 200))
-                 for _ in range(task["histories"])]
+        cases = timesim_cases(task)
     nontrivial = 0
-    for pool, ops in cases:
+    for number, (pool, ops) in enumerate(cases):
         before = stats.get("compare", 0)
         try:
             timesim.run_history(pool, ops, stats)
@@ -68,7 +82,12 @@ def execute_timesim(task):
             summary["violations"].append({"property": ID, "oracle": failure.oracle, "step": failure.index,
                                           "detail": dict(failure.detail, engine="timesim")})
             summary["status"] = "violation"
-            summary["resolved_task"] = dict(task, history={"pool": pool, "ops": ops[:failure.index + 1]})
+            if "history" in task:
+                summary["resolved_task"] = dict(task, history={"pool": pool, "ops": ops[:failure.index + 1]})
+            else:
+                # the whole batch up to the failing history: earlier histories may have changed process-wide state
+                summary["resolved_task"] = dict(task, stop_at=number)
+                summary["failing_history"] = {"pool": pool, "ops": ops[:failure.index + 1]}
             break
         if stats.get("compare", 0) - before >= 5:
             nontrivial += 1
@@ -90,7 +109,7 @@ def shifted(entry, q):
 
 def execute(task, package_dir):
     if task.get("engine") == "timesim":
-        return execute_timesim(task)
+        return execute_timesim_isolated(task)
     seams.install_time_seam()
     if task.get("engine") == "runsim":
         out = common.execute_runsim(task, package_dir, [ShadowClock], ID,
@@ -206,6 +225,14 @@ def execute(task, package_dir):
 def shrink_candidates(task, violation):
     import json
     history = task.get("history")
+    if not history and task.get("engine") == "timesim" and "stop_at" in task:
+        # first try the failing history alone (it replays only if no earlier history of the batch prepared the ground)
+        pool, ops = timesim_cases(task)[-1]
+        alone = {k: v for k, v in task.items() if k != "stop_at"}
+        alone["history"] = {"pool": pool, "ops": ops}
+        yield alone
+        # then fewer leading histories
+        return
     if not history:
         from ..driver import default_shrink_candidates
         for t in default_shrink_candidates(task, violation):
